@@ -18,6 +18,7 @@ CONSTANTS
   Coarse = FALSE
   MutPrecedence = FALSE
   MutNoCatch = FALSE
+  MutKilledEscapes = FALSE
   KilledMayRaise = TRUE
   EmitRecords <- NoEmit
 VIEW TView
